@@ -102,7 +102,7 @@ def install(ctx, numqi):
             ctx.close(p2, onehot, max(1e-9, 100 * T), 'remeasure/not-certain', 're-measurement probabilities are not one-hot on the first outcome', wit)
             ctx.close(q3, q2, max(1e-9, 100 * T), 'remeasure/state-changed', 're-measurement changed the state', wit)
 
-    ctx.attach(S, 'measure_quantum_vector', post=post, pre=pre)
+    ctx.attach(S, 'measure_quantum_vector', post=post, pre=pre, normalize=True, immutable_args=True)
 
     MG = numqi.sim.circuit.MeasureGate
 
@@ -206,7 +206,11 @@ def run_subsets(ctx, numqi, st, n):
                             buf = np.zeros(2 * psi.size, dtype=psi.dtype)
                             buf[::2] = psi
                             psi_in = buf[::2]
-                        bitstr, prob, q2 = S.measure_quantum_vector(psi_in, form, seed if tries % 3 else np.random.default_rng(seed))
+                        sd = seed if tries % 3 else np.random.default_rng(seed)
+                        if tries % 5 == 4:
+                            bitstr, prob, q2 = S.measure_quantum_vector(q0=psi_in, index=form, seed=sd)  # keyword form
+                        else:
+                            bitstr, prob, q2 = S.measure_quantum_vector(psi_in, form, sd)
                         o = int(''.join(str(int(b)) for b in bitstr), 2)
                         seen.add(o)
                         ctx.case('measure', psi, subset, o, nontrivial=(ref_p.max() < 1 - 1e-9) or r < n,
